@@ -768,7 +768,7 @@ void run_statements(Choices& c, Report& r, CaseState& st)
   {
     st.lg->flush_log();
     st.since_flush = 0;
-    size_t const cap = quill::Frontend::get_thread_local_queue_capacity();
+    size_t const cap = FrontendT::get_thread_local_queue_capacity();
     static uint32_t const deltas[] = {0, 0, 1, 2, 7, 8, 64, 4096};
     uint32_t const delta = deltas[c.pick(8)];
     size_t const fixed = 8 + 3 * sizeof(uintptr_t) + sizeof(uint32_t); // header + string length field
@@ -785,7 +785,7 @@ void run_statements(Choices& c, Report& r, CaseState& st)
       for (int spin = 0; spin < 2000000 && g_sink->written.load(std::memory_order_acquire) == written0; ++spin) std::this_thread::yield();
       ++st.expect_sink;
       ++st.n_statements;
-      size_t const cap_after = quill::Frontend::get_thread_local_queue_capacity();
+      size_t const cap_after = FrontendT::get_thread_local_queue_capacity();
       r.label(delta == 0 ? "exact_fit_of_queue_capacity" : "near_fit_of_queue_capacity");
       r.line("  boundary: string_view of " + std::to_string(big.size()) + " chars = encoded " + std::to_string(cap - delta) +
              " B into an empty queue of " + std::to_string(cap) + " B");
